@@ -244,6 +244,9 @@ Ltac pc_only_tac HI Hpc :=
 Lemma step_S_tail W s t : Inv W s -> pcs s t = S_tail -> forall tl, Inv W (set_pc s t (S_rsv tl)).
 Proof. intros HI Hpc tl. pc_only_tac HI Hpc. Qed.
 
+Lemma step_B_tail W s t p' : Inv W s -> pcs s t = B_tail -> (p' = B_acq \/ p' = SW_xchg true) -> Inv W (set_pc s t p').
+Proof. intros HI Hpc [->| ->]; pc_only_tac HI Hpc. Qed.
+
 Lemma step_A_tail W s t b q ovr p' : Inv W s -> pcs s t = A_tail b q ovr ->
   (p' = A_acq q ovr \/ p' = A_xchg b q ovr) -> Inv W (set_pc s t p').
 Proof. intros HI Hpc [->| ->]; pc_only_tac HI Hpc. Qed.
